@@ -162,6 +162,10 @@ func c02Run(c *core.Ctx) {
 				c02One(c, mkCase(src, f.V, why))
 			}
 		})
+		// E-pairs: every production after every production (values left on the yacc stack by a predecessor)
+		forPairs(c, f, pairLevel(c), 1, func(p, s *corpus.Item, src string) {
+			c02One(c, mkCase(src, f.V, "pair of corpus programs"))
+		})
 		// production pools: programs of several thousand tokens
 		for _, big := range bigPrograms(f, 2500) {
 			if !c.Next() {
